@@ -264,6 +264,9 @@ func verifC01Scenario(line string) (res string) {
 		}
 	}()
 	kv := verifC01KV(line)
+	if strings.HasPrefix(line, "rs ") {
+		return verifC01Resub(kv)
+	}
 	hist, ok1 := verifC01ParsePubs(kv["hist"], 2)
 	buf, ok2 := verifC01ParsePubs(kv["buf"], 3)
 	live, ok3 := verifC01ParsePubs(kv["live"], 4)
@@ -291,6 +294,12 @@ func verifC01Scenario(line string) (res string) {
 		},
 		ClientChannelPositionMaxTimeLag: 10 * time.Second,
 		ClientChannelPositionCheckDelay: time.Hour,
+		GetChannelBatchConfig: func(channel string) ChannelBatchConfig {
+			if kv["batch"] == "1" {
+				return ChannelBatchConfig{MaxDelay: 40 * time.Millisecond, MaxSize: 1 << 20}
+			}
+			return ChannelBatchConfig{}
+		},
 	})
 	if err != nil {
 		return "harness-error new-node"
@@ -594,4 +603,132 @@ func TestVerifC01(t *testing.T) {
 		fmt.Fprintln(w, verifC01Scenario(line))
 		w.Flush()
 	}
+}
+
+
+// verifC01Resub: `rs top=T n=K` — per-channel batching on (MaxDelay 40 ms).  A positioned client
+// subscribes at the stream top T, K live publications T+1..T+K are delivered (they sit in the
+// channel batch), the client unsubscribes before the batch is flushed and resubscribes recovering
+// from T.  Output: `rs pubs=<offsets in the second subscribe reply> late=<publication pushes that
+// reached the connection after the second subscribe reply, within 150 ms>`.
+func verifC01Resub(kv map[string]string) (res string) {
+	defer func() {
+		if r := recover(); r != nil {
+			res = fmt.Sprintf("PANIC %v", r)
+		}
+	}()
+	top, _ := strconv.ParseUint(kv["top"], 10, 64)
+	n, _ := strconv.Atoi(kv["n"])
+	node, err := New(Config{
+		LogLevel:                        LogLevelNone,
+		ClientChannelPositionMaxTimeLag: 10 * time.Second,
+		ClientChannelPositionCheckDelay: time.Hour,
+		GetChannelBatchConfig: func(channel string) ChannelBatchConfig {
+			return ChannelBatchConfig{MaxDelay: 40 * time.Millisecond, MaxSize: 1 << 20}
+		},
+	})
+	if err != nil {
+		return "harness-error new-node"
+	}
+	broker := &verifC01Broker{node: node, top: top, epoch: 1, injected: true}
+	node.SetBroker(broker)
+	node.OnConnecting(func(ctx context.Context, e ConnectEvent) (ConnectReply, error) {
+		return ConnectReply{Credentials: &Credentials{UserID: "u"}}, nil
+	})
+	node.OnConnect(func(c *Client) {
+		c.OnSubscribe(func(e SubscribeEvent, cb SubscribeCallback) {
+			cb(SubscribeReply{Options: SubscribeOptions{EnableRecovery: true, EnablePositioning: true}}, nil)
+		})
+		c.OnUnsubscribe(func(e UnsubscribeEvent) {})
+	})
+	if err := node.Run(); err != nil {
+		return "harness-error run"
+	}
+	defer func() { _ = node.Shutdown(context.Background()) }()
+	tr := &verifC01Transport{notify: make(chan struct{}, 1)}
+	ctx, cancel := context.WithCancel(context.Background())
+	defer cancel()
+	client, closeFn, err := NewClient(ctx, node, tr)
+	if err != nil {
+		return "harness-error new-client"
+	}
+	defer func() { _ = closeFn() }()
+	const ch = "ch"
+	waitReply := func(id uint32) *verifC01Frame {
+		var got *verifC01Frame
+		tr.waitFor(func(fr []string, closed bool) bool {
+			if closed {
+				return true
+			}
+			for _, f := range fr {
+				var x verifC01Frame
+				if json.Unmarshal([]byte(f), &x) == nil && x.ID == id {
+					y := x
+					got = &y
+					return true
+				}
+			}
+			return false
+		})
+		return got
+	}
+	client.HandleCommand(&protocol.Command{Id: 1, Connect: &protocol.ConnectRequest{}}, 0)
+	if waitReply(1) == nil {
+		return "harness-error connect"
+	}
+	client.HandleCommand(&protocol.Command{Id: 2, Subscribe: &protocol.SubscribeRequest{Channel: ch, Recover: true, Offset: top, Epoch: verifC01Epoch(1)}}, 0)
+	if r := waitReply(2); r == nil || r.Subscribe == nil {
+		return "harness-error subscribe1"
+	}
+	for i := 1; i <= n; i++ {
+		p := verifC01Pub{off: top + uint64(i), epoch: 1}
+		broker.hist = append(broker.hist, p)
+		broker.top = p.off
+		_ = broker.handler.HandlePublication(ch, verifC01MkPub(p), StreamPosition{Offset: p.off, Epoch: verifC01Epoch(1)}, false, nil)
+	}
+	client.HandleCommand(&protocol.Command{Id: 3, Unsubscribe: &protocol.UnsubscribeRequest{Channel: ch}}, 0)
+	if waitReply(3) == nil {
+		return "harness-error unsubscribe"
+	}
+	client.HandleCommand(&protocol.Command{Id: 4, Subscribe: &protocol.SubscribeRequest{Channel: ch, Recover: true, Offset: top, Epoch: verifC01Epoch(1)}}, 0)
+	r4 := waitReply(4)
+	if r4 == nil || r4.Subscribe == nil {
+		return "harness-error subscribe2"
+	}
+	var pubs []string
+	for _, p := range r4.Subscribe.Publications {
+		pubs = append(pubs, strconv.FormatUint(p.Offset, 10))
+	}
+	time.Sleep(150 * time.Millisecond) // the channel batch (MaxDelay 40 ms) would have flushed by now
+	_ = client.Send([]byte(`{"fence":1}`))
+	tr.waitFor(func(fr []string, closed bool) bool {
+		for i := len(fr) - 1; i >= 0; i-- {
+			if strings.Contains(fr[i], `"fence":1`) {
+				return true
+			}
+		}
+		return closed
+	})
+	var late []string
+	tr.mu.Lock()
+	after := false
+	for _, f := range tr.frames {
+		var x verifC01Frame
+		if json.Unmarshal([]byte(f), &x) != nil {
+			continue
+		}
+		if x.ID == 4 {
+			after = true
+			continue
+		}
+		if after && x.Push != nil && x.Push.Pub != nil {
+			late = append(late, strconv.FormatUint(x.Push.Pub.Offset, 10))
+		}
+	}
+	tr.mu.Unlock()
+	l := strings.Join(late, ",")
+	if l == "" {
+		l = "-"
+	}
+	return "rs pubs=" + strings.Join(pubs, ",") + " late=" + l
 }
